@@ -509,3 +509,494 @@ Proof.
   - cbn [ids_below]. rewrite Hb, andb_true_r. apply Nat.ltb_lt. unfold i. lia.
   - reflexivity.
 Qed.
+
+Lemma pushes_tuple : forall w ps xs, xs <> [] -> pushes_all w ps xs ->
+  pushes w (MARK :: ps ++ [TUPLE]) (PTuple xs).
+Proof.
+  intros w ps xs Hne Hps st rest Hf.
+  assert (Hf2 : fresh_state (st_push st [OMark] (next st) (trace st))).
+  { apply fresh_after_push; [exact Hf | lia | reflexivity]. }
+  destruct (Hps _ (TUPLE :: rest) Hf2) as [os [n' [tr' [Hr [Hd [Hle [Hb Hmk]]]]]]].
+  exists (OTuple os), n', tr'. cbn [next st_push] in Hle.
+  split; [|split; [|split; [|split]]].
+  - cbn [app]. rewrite (run_step_next w st MARK (push OMark st)) by reflexivity.
+    rewrite <- app_assoc. cbn [app].
+    change (push OMark st) with (st_push st [OMark] (next st) (trace st)).
+    rewrite Hr. unfold st_push. cbn [stack memo ecache app]. apply tuple_closes. exact Hmk.
+  - rewrite decode_tuple_eq, (all_some_map_decode _ _ Hd). reflexivity.
+  - exact Hle.
+  - cbn [ids_below]. exact Hb.
+  - reflexivity.
+Qed.
+
+(* key / value pairs *)
+Definition pushes_kvs (w : world) (prog : list op) (kvs : list (atom * pv)) : Prop :=
+  forall st rest, fresh_state st ->
+  exists ps n' tr',
+    run w st (prog ++ rest) = run w (st_push st (rev (flatten ps)) n' tr') rest /\
+    Forall2 (fun p kv => fst p = obj_of_atom (fst kv) /\ decode (snd p) = Some (snd kv)) ps kvs /\
+    next st <= n' /\ forallb (ids_below n') (flatten ps) = true /\ existsb is_mark (flatten ps) = false.
+
+Lemma pushes_kvs_nil : forall w, pushes_kvs w [] [].
+Proof.
+  intros w st rest Hf. exists [], (next st), (trace st). cbn. split; [|repeat split; auto].
+  unfold st_push. cbn. destruct st; reflexivity.
+Qed.
+
+Lemma pushes_kvs_cons : forall w k p ps v kvs,
+  pushes w p v -> pushes_kvs w ps kvs -> pushes_kvs w (enc_atom k :: p ++ ps) ((k, v) :: kvs).
+Proof.
+  intros w k p ps v kvs Hp Hps st rest Hf.
+  assert (Hf0 : fresh_state (st_push st [obj_of_atom k] (next st) (trace st))).
+  { apply fresh_after_push; [exact Hf | lia|]. cbn. rewrite ids_below_atom. reflexivity. }
+  destruct (Hp _ (ps ++ rest) Hf0) as [o [n1 [tr1 [Hr1 [Hd [Hle1 [Hb1 Hm1]]]]]]].
+  cbn [next st_push] in Hle1.
+  assert (Hf1 : fresh_state (st_push st [o; obj_of_atom k] n1 tr1)).
+  { apply fresh_after_push; [exact Hf | exact Hle1|]. cbn. rewrite Hb1, ids_below_atom. reflexivity. }
+  destruct (Hps _ rest Hf1) as [qs [n2 [tr2 [Hr2 [Hds [Hle2 [Hb2 Hm2]]]]]]].
+  cbn [next st_push] in Hle2.
+  exists ((obj_of_atom k, o) :: qs), n2, tr2.
+  split; [|split; [|split; [|split]]].
+  - cbn [app]. rewrite (run_step_next w st _ _ _ (step_enc_atom w st k)).
+    change (push (obj_of_atom k) st) with (st_push st [obj_of_atom k] (next st) (trace st)).
+    rewrite <- app_assoc, Hr1. rewrite st_push_push. cbn [app]. rewrite Hr2. rewrite st_push_push.
+    cbn [flatten flat_map fst snd app rev]. unfold flatten. rewrite <- !app_assoc. reflexivity.
+  - constructor; [split; [reflexivity | exact Hd] | exact Hds].
+  - lia.
+  - cbn. rewrite ids_below_atom, (ids_below_mono _ _ Hle2 _ Hb1). exact Hb2.
+  - cbn. rewrite is_mark_atom, Hm1. exact Hm2.
+Qed.
+
+Lemma kvs_keys : forall ps (kvs : list (atom * pv)),
+  Forall2 (fun p kv => fst p = obj_of_atom (fst kv) /\ decode (snd p) = Some (snd kv)) ps kvs ->
+  map fst ps = map obj_of_atom (map fst kvs) /\ all_some (map dec_kv ps) = Some kvs.
+Proof.
+  intros ps kvs H. induction H as [|[k o] [a v] ps kvs [Hk Hv] Hr [IH1 IH2]]; cbn; [auto|].
+  cbn in Hk, Hv. subst k. split; [rewrite IH1; reflexivity|].
+  unfold dec_kv at 1. cbn. rewrite atom_of_obj_of_atom, Hv, IH2. reflexivity.
+Qed.
+
+Lemma pushes_dict : forall w ps kvs, kvs <> [] -> nodup_atoms (map fst kvs) = true -> pushes_kvs w ps kvs ->
+  pushes w (EMPTY_DICT :: MARK :: ps ++ [SETITEMS]) (PDict kvs).
+Proof.
+  intros w ps kvs Hne Hnd Hps st rest Hf. destruct Hf as [Hs Hm].
+  set (i := next st) in *.
+  assert (Hf2 : fresh_state (st_push st [OMark; ODict i []] (S i) (trace st))).
+  { apply fresh_after_push; [split; assumption | unfold i; lia|]. cbn [forallb ids_below].
+    rewrite !andb_true_r. apply Nat.ltb_lt. lia. }
+  destruct (Hps _ (SETITEMS :: rest) Hf2) as [qs [n' [tr' [Hr [Hd [Hle [Hb Hmk]]]]]]].
+  exists (ODict i qs), n', tr'. cbn [next st_push] in Hle.
+  destruct (kvs_keys _ _ Hd) as [Hkeys Hdec].
+  split; [|split; [|split; [|split]]].
+  - cbn [app]. rewrite (run_step_next w st EMPTY_DICT (fresh (push (ODict i []) st))) by reflexivity.
+    rewrite (run_step_next w _ MARK (push OMark (fresh (push (ODict i []) st)))) by reflexivity.
+    rewrite <- app_assoc. cbn [app].
+    change (push OMark (fresh (push (ODict i []) st))) with (st_push st [OMark; ODict i []] (S i) (trace st)).
+    rewrite Hr. unfold st_push. cbn [stack memo ecache app].
+    apply setitems_closes; try assumption.
+    + apply (Forall2_length_ne _ _ _ _ _ Hd Hne).
+    + rewrite Hkeys. clear. induction (map fst kvs) as [|a r IH]; cbn; [reflexivity|]. rewrite hashable_atom. exact IH.
+    + rewrite Hkeys, nodup_keys_atoms. exact Hnd.
+  - rewrite decode_dict_eq, Hdec. reflexivity.
+  - lia.
+  - cbn [ids_below]. apply andb_true_iff. split; [apply Nat.ltb_lt; unfold i; lia|].
+    clear - Hb. induction qs as [|[k v] r IH]; cbn in *; [reflexivity|].
+    apply andb_true_iff in Hb. destruct Hb as [Hk Hb]. apply andb_true_iff in Hb. destruct Hb as [Hv Hb].
+    rewrite Hk, Hv, (IH Hb). reflexivity.
+  - reflexivity.
+Qed.
+
+Lemma ids_below_atoms : forall n xs, forallb (ids_below n) (map obj_of_atom xs) = true.
+Proof. intros n. induction xs as [|a r IH]; cbn; [reflexivity|]. rewrite ids_below_atom. exact IH. Qed.
+
+Lemma decode_set_atoms : forall i xs, decode (OSet i (map obj_of_atom xs)) = Some (PSet xs).
+Proof. intros. cbn [decode]. rewrite all_some_atoms. reflexivity. Qed.
+Lemma decode_frozen_atoms : forall xs, decode (OFrozen (map obj_of_atom xs)) = Some (PFrozen xs).
+Proof. intros. cbn [decode]. rewrite all_some_atoms. reflexivity. Qed.
+
+(* running the encodings of atoms pushes exactly their objects *)
+Lemma run_atoms : forall w xs st rest,
+  run w st (map enc_atom xs ++ rest) = run w (st_push st (rev (map obj_of_atom xs)) (next st) (trace st)) rest.
+Proof.
+  intros w. induction xs as [|a r IH]; intros st rest; cbn [map app rev].
+  - unfold st_push. cbn. destruct st; reflexivity.
+  - rewrite (run_step_next w st _ _ _ (step_enc_atom w st a)). rewrite IH.
+    unfold st_push, push, set_stack. cbn [stack memo next ecache trace]. rewrite <- app_assoc. reflexivity.
+Qed.
+
+Lemma pushes_set : forall w xs, xs <> [] -> nodup_atoms xs = true ->
+  pushes w (EMPTY_SET :: MARK :: map enc_atom xs ++ [ADDITEMS]) (PSet xs).
+Proof.
+  intros w xs Hne Hnd st rest Hf. destruct Hf as [Hs Hm]. set (i := next st) in *.
+  exists (OSet i (map obj_of_atom xs)), (S i), (trace st).
+  split; [|split; [|split; [|split]]].
+  - cbn [app]. rewrite (run_step_next w st EMPTY_SET (fresh (push (OSet i []) st))) by reflexivity.
+    rewrite (run_step_next w _ MARK (push OMark (fresh (push (OSet i []) st)))) by reflexivity.
+    rewrite <- app_assoc. cbn [app]. rewrite run_atoms.
+    unfold st_push, push, fresh, set_stack. cbn [stack memo next ecache trace app].
+    apply additems_closes; assumption.
+  - apply decode_set_atoms.
+  - unfold i. lia.
+  - cbn [ids_below]. rewrite ids_below_atoms, andb_true_r. apply Nat.ltb_lt. lia.
+  - reflexivity.
+Qed.
+
+Lemma pushes_frozen : forall w xs, nodup_atoms xs = true ->
+  pushes w (MARK :: map enc_atom xs ++ [FROZENSET]) (PFrozen xs).
+Proof.
+  intros w xs Hnd st rest Hf.
+  exists (OFrozen (map obj_of_atom xs)), (next st), (trace st).
+  split; [|split; [|split; [|split]]].
+  - cbn [app]. rewrite (run_step_next w st MARK (push OMark st)) by reflexivity.
+    rewrite <- app_assoc. cbn [app]. rewrite run_atoms.
+    unfold st_push, push, set_stack. cbn [stack memo next ecache trace app].
+    apply frozenset_closes. exact Hnd.
+  - apply decode_frozen_atoms.
+  - lia.
+  - cbn [ids_below]. apply ids_below_atoms.
+  - reflexivity.
+Qed.
+
+(** * globals, persistent id, constructor calls *)
+
+Lemma pushes_type : forall w m n, find_class w m n = FCResolved GType ->
+  pushes w [enc_str m; enc_str n; STACK_GLOBAL] (PType m n).
+Proof.
+  intros w m n Hfc st rest Hf. exists (OGlobal m n GType), (next st), (EResolve m n :: trace st).
+  split; [|repeat split; auto].
+  cbn [app]. rewrite (run_step_next w st _ _ _ (step_enc_str w st m)).
+  rewrite (run_step_next w _ _ _ _ (step_enc_str w _ n)).
+  apply run_step_next. cbn [step push set_stack stack pop1 is_mark]. unfold do_global. rewrite Hfc. reflexivity.
+Qed.
+
+Lemma pushes_nonetype : forall w, pushes w [enc_str NONE_TYPE_PID; BINPERSID] PNoneType.
+Proof.
+  intros w st rest Hf. exists ONoneType, (next st), (EPersist (OStr NONE_TYPE_PID) :: trace st).
+  split; [|repeat split; auto].
+  cbn [app]. rewrite (run_step_next w st _ _ _ (step_enc_str w st NONE_TYPE_PID)).
+  apply run_step_next. cbn [step push set_stack stack pop1 is_mark]. unfold persistent_load.
+  rewrite pystr_eqb_refl. reflexivity.
+Qed.
+
+(* what the payload needs from the process besides resolvable class objects *)
+Record calls_ok (w : world) : Prop := mkCallsOk {
+  co_opcode : forall args, call_ok w KNewobj (OGlobal HELPER OPCODE GType) args = true;
+  co_setordered : call_ok w KNewobj (OGlobal HELPER SETORDERED GType) (OTuple []) = true;
+  co_build : forall i s, build_ok w (OInst i KNewobj (OGlobal HELPER SETORDERED GType) (OTuple []) []) s = true
+}.
+
+Definition types_ok (w : world) (v : pv) : Prop :=
+  forall m n, In (m, n) (types_of v) -> find_class w m n = FCResolved GType.
+
+Lemma pushes_opcode : forall w tag i1 i2 j1 j2 pold pnew old new,
+  calls_ok w -> find_class w HELPER OPCODE = FCResolved GType ->
+  pushes w pold old -> pushes w pnew new ->
+  pushes w ([enc_str HELPER; enc_str OPCODE; STACK_GLOBAL; MARK;
+             enc_str tag; enc_int i1; enc_int i2; enc_int j1; enc_int j2]
+            ++ pold ++ pnew ++ [TUPLE; NEWOBJ]) (POpcode tag i1 i2 j1 j2 old new).
+Proof.
+  intros w tag i1 i2 j1 j2 pold pnew old new Hco Hfc Hold Hnew st rest Hf.
+  set (cls := OGlobal HELPER OPCODE GType).
+  set (pre := [OInt j2; OInt j1; OInt i2; OInt i1; OStr tag; OMark; cls]).
+  set (tr0 := EResolve HELPER OPCODE :: trace st).
+  assert (Hf1 : fresh_state (st_push st pre (next st) tr0)).
+  { apply fresh_after_push; [exact Hf | lia | reflexivity]. }
+  destruct (Hold _ (pnew ++ [TUPLE; NEWOBJ] ++ rest) Hf1) as [o1 [n1 [tr1 [Hr1 [Hd1 [Hle1 [Hb1 Hm1]]]]]]].
+  cbn [next st_push] in Hle1.
+  assert (Hf2 : fresh_state (st_push st (o1 :: pre) n1 tr1)).
+  { apply fresh_after_push; [exact Hf | exact Hle1|]. cbn [forallb]. rewrite Hb1. reflexivity. }
+  destruct (Hnew _ ([TUPLE; NEWOBJ] ++ rest) Hf2) as [o2 [n2 [tr2 [Hr2 [Hd2 [Hle2 [Hb2 Hm2]]]]]]].
+  cbn [next st_push] in Hle2.
+  set (args := OTuple [OStr tag; OInt i1; OInt i2; OInt j1; OInt j2; o1; o2]).
+  exists (OInst n2 KNewobj cls args []), (S n2), (ECall KNewobj cls args :: tr2).
+  split; [|split; [|split; [|split]]].
+  - cbn [app]. rewrite (run_step_next w st _ _ _ (step_enc_str w st HELPER)).
+    rewrite (run_step_next w _ _ _ _ (step_enc_str w _ OPCODE)).
+    rewrite (run_step_next w _ STACK_GLOBAL (push cls (emit (EResolve HELPER OPCODE) st))).
+    2:{ cbn [step push set_stack stack pop1 is_mark]. unfold do_global. rewrite Hfc. destruct st; reflexivity. }
+    rewrite (run_step_next w _ MARK _ _ eq_refl).
+    rewrite (run_step_next w _ _ _ _ (step_enc_str w _ tag)).
+    rewrite (run_step_next w _ _ _ _ (step_enc_int w _ i1)).
+    rewrite (run_step_next w _ _ _ _ (step_enc_int w _ i2)).
+    rewrite (run_step_next w _ _ _ _ (step_enc_int w _ j1)).
+    rewrite (run_step_next w _ _ _ _ (step_enc_int w _ j2)).
+    match goal with |- run w ?s _ = _ => change s with (st_push st pre (next st) tr0) end.
+    rewrite <- !app_assoc. rewrite Hr1, st_push_push. cbn [app]. cbn [app] in Hr2. rewrite Hr2, st_push_push. cbn [app].
+    unfold st_push. cbn [stack memo ecache app].
+    change (o2 :: o1 :: pre ++ stack st)
+      with (rev [OStr tag; OInt i1; OInt i2; OInt j1; OInt j2; o1; o2] ++ OMark :: cls :: stack st).
+    rewrite tuple_closes.
+    2:{ cbn. rewrite Hm1, Hm2. reflexivity. }
+    apply run_step_next. subst args cls. cbn [step stack pop1 is_mark is_type].
+    unfold do_call. rewrite (co_opcode w Hco). reflexivity.
+  - cbn [decode cls args]. rewrite !pystr_eqb_refl. cbn [andb]. rewrite Hd1, Hd2. reflexivity.
+  - lia.
+  - assert (E1 : ids_below (S n2) o1 = true) by (apply (ids_below_mono n1); [lia | exact Hb1]).
+    assert (E2 : ids_below (S n2) o2 = true) by (apply (ids_below_mono n2); [lia | exact Hb2]).
+    subst args cls. cbn [ids_below forallb]. rewrite E1, E2. rewrite !andb_true_r. apply Nat.ltb_lt. lia.
+  - reflexivity.
+Qed.
+
+(* the list part with its object explicit (needed under BUILD) *)
+Definition list_prog (ps : list op) (xs : list pv) : list op :=
+  match xs with [] => [EMPTY_LIST] | _ => (EMPTY_LIST :: MARK :: ps ++ [APPENDS])%list end.
+
+Lemma list_explicit : forall w ps xs, pushes_all w ps xs ->
+  forall st rest, fresh_state st ->
+  exists os n' tr',
+    run w st (list_prog ps xs ++ rest) = run w (st_push st [OList (next st) os] n' tr') rest /\
+    Forall2 (fun o v => decode o = Some v) os xs /\ next st < n' /\ forallb (ids_below n') os = true.
+Proof.
+  intros w ps xs Hps st rest Hf. destruct xs as [|x xs'].
+  - exists [], (S (next st)), (trace st). cbn [list_prog app]. split; [|split; [constructor | split; [lia | reflexivity]]].
+    apply run_step_next. reflexivity.
+  - destruct Hf as [Hs Hm]. set (i := next st) in *.
+    assert (Hf2 : fresh_state (st_push st [OMark; OList i []] (S i) (trace st))).
+    { apply fresh_after_push; [split; assumption | unfold i; lia|]. cbn [forallb ids_below].
+      rewrite !andb_true_r. apply Nat.ltb_lt. lia. }
+    destruct (Hps _ (APPENDS :: rest) Hf2) as [os [n' [tr' [Hr [Hd [Hle [Hb Hmk]]]]]]].
+    exists os, n', tr'. cbn [next st_push] in Hle.
+    split; [|split; [exact Hd | split; [unfold i in *; lia | exact Hb]]].
+    cbn [list_prog app]. rewrite (run_step_next w st EMPTY_LIST (fresh (push (OList i []) st))) by reflexivity.
+    rewrite (run_step_next w _ MARK (push OMark (fresh (push (OList i []) st)))) by reflexivity.
+    rewrite <- app_assoc. cbn [app].
+    change (push OMark (fresh (push (OList i []) st))) with (st_push st [OMark; OList i []] (S i) (trace st)).
+    rewrite Hr. unfold st_push. cbn [stack memo ecache app].
+    apply appends_closes; try assumption. apply (Forall2_length_ne _ _ _ _ _ Hd). discriminate.
+Qed.
+
+Lemma decode_setordered_eq : forall j i os,
+  decode (OInst j KNewobj (OGlobal HELPER SETORDERED GType) (OTuple []) [OList i os])
+  = option_map PSetOrdered (all_some (map decode os)).
+Proof.
+  intros j i os. cbn [decode].
+  change (pystr_eqb HELPER HELPER) with true. change (pystr_eqb SETORDERED OPCODE) with false.
+  change (pystr_eqb SETORDERED SETORDERED) with true. cbn [andb]. f_equal.
+  induction os as [|o r IH]; cbn; [reflexivity|].
+  rewrite IH. destruct (decode o); [|reflexivity]. destruct (all_some (map decode r)); reflexivity.
+Qed.
+
+Lemma pushes_setordered : forall w ps xs,
+  calls_ok w -> find_class w HELPER SETORDERED = FCResolved GType -> pushes_all w ps xs ->
+  pushes w ([enc_str HELPER; enc_str SETORDERED; STACK_GLOBAL; EMPTY_TUPLE; NEWOBJ] ++ list_prog ps xs ++ [BUILD])
+           (PSetOrdered xs).
+Proof.
+  intros w ps xs Hco Hfc Hps st rest Hf.
+  set (j := next st).
+  set (tr0 := ECall KNewobj (OGlobal HELPER SETORDERED GType) (OTuple []) :: EResolve HELPER SETORDERED :: trace st).
+  set (inst0 := OInst j KNewobj (OGlobal HELPER SETORDERED GType) (OTuple []) []).
+  assert (Hf1 : fresh_state (st_push st [inst0] (S j) tr0)).
+  { apply fresh_after_push; [exact Hf | unfold j; lia|]. subst inst0. cbn [forallb ids_below].
+    rewrite !andb_true_r. apply Nat.ltb_lt. lia. }
+  destruct (list_explicit w ps xs Hps _ (BUILD :: rest) Hf1) as [os [n' [tr' [Hr [Hd [Hlt Hb]]]]]].
+  cbn [next st_push] in Hlt, Hr.
+  set (lst := OList (S j) os) in *.
+  exists (OInst j KNewobj (OGlobal HELPER SETORDERED GType) (OTuple []) [lst]), n', (EBuild inst0 lst :: tr').
+  destruct Hf as [Hs Hm].
+  split; [|split; [|split; [|split]]].
+  - cbn [app]. rewrite (run_step_next w st _ _ _ (step_enc_str w st HELPER)).
+    rewrite (run_step_next w _ _ _ _ (step_enc_str w _ SETORDERED)).
+    rewrite (run_step_next w _ STACK_GLOBAL (push (OGlobal HELPER SETORDERED GType) (emit (EResolve HELPER SETORDERED) st))).
+    2:{ cbn [step push set_stack stack pop1 is_mark]. unfold do_global. rewrite Hfc. destruct st; reflexivity. }
+    rewrite (run_step_next w _ EMPTY_TUPLE _ _ eq_refl).
+    rewrite (run_step_next w _ NEWOBJ (st_push st [inst0] (S j) tr0)).
+    2:{ cbn [step push set_stack emit stack pop1 is_mark is_type]. unfold do_call. rewrite (co_setordered w Hco). reflexivity. }
+    rewrite <- app_assoc. cbn [app] in Hr. cbn [app]. rewrite Hr.
+    apply run_step_next. unfold st_push. cbn [step stack app pop1 is_mark]. subst lst inst0.
+    cbn [pop1 is_mark]. rewrite (co_build w Hco).
+    unfold mutate, emit, set_stack. cbn [stack memo next ecache trace map subst app].
+    rewrite Nat.eqb_refl, (stack_subst_fresh _ _ _ Hs), (memo_subst_fresh _ _ _ Hm). reflexivity.
+  - subst lst. rewrite decode_setordered_eq, (all_some_map_decode _ _ Hd). reflexivity.
+  - unfold j in *. lia.
+  - subst lst. cbn [ids_below forallb]. rewrite Hb. rewrite !andb_true_r.
+    apply andb_true_iff. split; apply Nat.ltb_lt; unfold j in *; lia.
+  - reflexivity.
+Qed.
+
+(** * the encoder's local fixpoints as list functions *)
+
+Definition enc_kv (kv : atom * pv) : list op := enc_atom (fst kv) :: enc (snd kv).
+
+Lemma encs_flat : forall r,
+  (fix encs (xs : list pv) : list op :=
+     match xs with [] => [] | x0 :: r0 => (enc x0 ++ encs r0)%list end) r = flat_map enc r.
+Proof. induction r as [|y r IH]; [reflexivity|]. cbn [flat_map]. rewrite <- IH. reflexivity. Qed.
+Lemma enckv_flat : forall r,
+  (fix enckv (kvs : list (atom * pv)) : list op :=
+     match kvs with [] => [] | (k, x) :: r0 => (enc_atom k :: enc x ++ enckv r0)%list end) r = flat_map enc_kv r.
+Proof. induction r as [|[k y] r IH]; [reflexivity|]. cbn [flat_map]. rewrite <- IH. reflexivity. Qed.
+
+Lemma enc_list_eq : forall xs, enc (PList xs) =
+  match xs with [] => [EMPTY_LIST] | _ => (EMPTY_LIST :: MARK :: flat_map enc xs ++ [APPENDS])%list end.
+Proof. intros [|x r]; [reflexivity|]. cbn [enc]. rewrite encs_flat. reflexivity. Qed.
+Lemma enc_tuple_eq : forall xs, enc (PTuple xs) =
+  match xs with [] => [EMPTY_TUPLE] | _ => (MARK :: flat_map enc xs ++ [TUPLE])%list end.
+Proof. intros [|x r]; [reflexivity|]. cbn [enc]. rewrite encs_flat. reflexivity. Qed.
+Lemma enc_dict_eq : forall kvs, enc (PDict kvs) =
+  match kvs with [] => [EMPTY_DICT] | _ => (EMPTY_DICT :: MARK :: flat_map enc_kv kvs ++ [SETITEMS])%list end.
+Proof. intros [|[k x] r]; [reflexivity|]. cbn [enc]. rewrite enckv_flat. reflexivity. Qed.
+Lemma enc_setordered_eq : forall xs, enc (PSetOrdered xs) =
+  ([enc_str HELPER; enc_str SETORDERED; STACK_GLOBAL; EMPTY_TUPLE; NEWOBJ]
+   ++ list_prog (flat_map enc xs) xs ++ [BUILD])%list.
+Proof. intros [|x r]; [reflexivity|]. cbn [enc list_prog]. rewrite encs_flat. reflexivity. Qed.
+
+(** * the round trip *)
+
+Lemma pushes_all_flat : forall w xs,
+  Forall (fun x => pushes w (enc x) x) xs -> pushes_all w (flat_map enc xs) xs.
+Proof.
+  intros w xs H. induction H as [|x r Hx Hr IH]; cbn [flat_map]; [apply pushes_all_nil|].
+  apply pushes_all_cons; assumption.
+Qed.
+
+Lemma pushes_kvs_flat : forall w (kvs : list (atom * pv)),
+  Forall (fun kv => pushes w (enc (snd kv)) (snd kv)) kvs -> pushes_kvs w (flat_map enc_kv kvs) kvs.
+Proof.
+  intros w kvs H. induction H as [|[k x] r Hx Hr IH]; cbn [flat_map]; [apply pushes_kvs_nil|].
+  unfold enc_kv at 1. cbn [fst snd]. cbn [app]. apply pushes_kvs_cons; assumption.
+Qed.
+
+Lemma Forall_wfp_types : forall w (P : pv -> Prop) xs,
+  Forall (fun x => wfp x = true -> types_ok w x -> P x) xs ->
+  forallb wfp xs = true -> (forall m n, In (m, n) (flat_map types_of xs) -> find_class w m n = FCResolved GType) ->
+  Forall P xs.
+Proof.
+  intros w P xs H. induction H as [|x r Hx Hr IH]; intros Hw Ht; constructor.
+  - cbn in Hw. apply andb_true_iff in Hw. apply Hx; [apply Hw|]. intros m n Hin. apply Ht. cbn. apply in_or_app. left. exact Hin.
+  - cbn in Hw. apply andb_true_iff in Hw. apply IH; [apply Hw|]. intros m n Hin. apply Ht. cbn. apply in_or_app. right. exact Hin.
+Qed.
+
+Lemma Forall_wfp_types_kv : forall w (P : pv -> Prop) (kvs : list (atom * pv)),
+  Forall (fun kv => wfp (snd kv) = true -> types_ok w (snd kv) -> P (snd kv)) kvs ->
+  forallb (fun kv => wfp (snd kv)) kvs = true ->
+  (forall m n, In (m, n) (flat_map (fun kv => types_of (snd kv)) kvs) -> find_class w m n = FCResolved GType) ->
+  Forall (fun kv => P (snd kv)) kvs.
+Proof.
+  intros w P kvs H. induction H as [|x r Hx Hr IH]; intros Hw Ht; constructor.
+  - cbn in Hw. apply andb_true_iff in Hw. apply Hx; [apply Hw|]. intros m n Hin. apply Ht. cbn. apply in_or_app. left. exact Hin.
+  - cbn in Hw. apply andb_true_iff in Hw. apply IH; [apply Hw|]. intros m n Hin. apply Ht. cbn. apply in_or_app. right. exact Hin.
+Qed.
+
+Theorem enc_pushes : forall w, calls_ok w -> forall v, wfp v = true -> types_ok w v -> pushes w (enc v) v.
+Proof.
+  intros w Hco. induction v using pv_ind'; intros Hw Ht.
+  - apply pushes_atom.
+  - apply (pushes_const w _ (OFloat (FBits b))); auto.
+  - (* list *) rewrite enc_list_eq. destruct xs as [|x r].
+    + intros st rest Hf. exists (OList (next st) []), (S (next st)), (trace st).
+      split; [apply run_step_next; reflexivity|].
+      split; [reflexivity | split; [lia | split; [|reflexivity]]].
+      cbn [ids_below forallb]. rewrite andb_true_r. apply Nat.ltb_lt. lia.
+    + apply pushes_list; [discriminate|]. apply pushes_all_flat.
+      apply (Forall_wfp_types w _ _ H); [exact Hw | exact Ht].
+  - (* tuple *) rewrite enc_tuple_eq. destruct xs as [|x r].
+    + apply (pushes_const w _ (OTuple [])); auto.
+    + apply pushes_tuple; [discriminate|]. apply pushes_all_flat.
+      apply (Forall_wfp_types w _ _ H); [exact Hw | exact Ht].
+  - (* dict *) rewrite enc_dict_eq. cbn [wfp] in Hw. apply andb_true_iff in Hw. destruct Hw as [Hnd Hw].
+    destruct kvs as [|kv r].
+    + intros st rest Hf. exists (ODict (next st) []), (S (next st)), (trace st).
+      split; [apply run_step_next; reflexivity|].
+      split; [reflexivity | split; [lia | split; [|reflexivity]]].
+      cbn [ids_below forallb]. rewrite andb_true_r. apply Nat.ltb_lt. lia.
+    + apply pushes_dict; [discriminate | exact Hnd|]. apply pushes_kvs_flat.
+      apply (Forall_wfp_types_kv w (fun v => pushes w (enc v) v) _ H); [exact Hw | exact Ht].
+  - (* set *) destruct xs as [|a r].
+    + intros st rest Hf. exists (OSet (next st) []), (S (next st)), (trace st).
+      split; [apply run_step_next; reflexivity|].
+      split; [reflexivity | split; [lia | split; [|reflexivity]]].
+      cbn [ids_below forallb]. rewrite andb_true_r. apply Nat.ltb_lt. lia.
+    + apply pushes_set; [discriminate | exact Hw].
+  - (* frozenset *) apply pushes_frozen. exact Hw.
+  - (* type *) apply pushes_type. apply Ht. left. reflexivity.
+  - apply pushes_nonetype.
+  - (* opcode *) cbn [wfp] in Hw. apply andb_true_iff in Hw. destruct Hw as [Hw1 Hw2].
+    cbn [enc]. apply pushes_opcode.
+    + exact Hco.
+    + apply Ht. left. reflexivity.
+    + apply IHv1; [exact Hw1|]. intros m n Hin. apply Ht. cbn. right. apply in_or_app. left. exact Hin.
+    + apply IHv2; [exact Hw2|]. intros m n Hin. apply Ht. cbn. right. apply in_or_app. right. exact Hin.
+  - (* SetOrdered *) rewrite enc_setordered_eq. apply pushes_setordered.
+    + exact Hco.
+    + apply Ht. left. reflexivity.
+    + apply pushes_all_flat. apply (Forall_wfp_types w _ _ H); [exact Hw|].
+      intros m n Hin. apply Ht. cbn. right. exact Hin.
+Qed.
+
+Lemma init_fresh : forall w, fresh_state (init w).
+Proof. intro w. split; reflexivity. Qed.
+
+(* pickle_load (canonical dump of d) = d, for every well-formed payload *)
+Theorem pickle_roundtrip : forall w d,
+  calls_ok w -> types_ok w d -> wfp d = true -> load w (enc_prog d) = Some d.
+Proof.
+  intros w d Hco Ht Hw. unfold load, enc_prog, vm_run.
+  rewrite (run_step_next w (init w) (PROTO 4) (init w)) by reflexivity.
+  rewrite (run_step_next w (init w) (FRAME 0) (init w)) by reflexivity.
+  destruct (enc_pushes w Hco d Hw Ht (init w) [STOP] (init_fresh w)) as [o [n' [tr' [Hr [Hd [_ [_ Hm]]]]]]].
+  rewrite Hr. cbn [run step st_push stack app pop1]. rewrite Hm. cbn. exact Hd.
+Qed.
+
+(** * consequences *)
+
+(* the default process supports every payload whose class objects are on the
+   built-in allow-list and loaded *)
+Lemma default_calls_ok : calls_ok default_world.
+Proof. constructor; intros; reflexivity. Qed.
+
+Definition types_default_b (d : pv) : bool :=
+  forallb (fun mn => match find_class default_world (fst mn) (snd mn) with FCResolved GType => true | _ => false end)
+          (types_of d).
+Lemma types_default_ok : forall d, types_default_b d = true -> types_ok default_world d.
+Proof.
+  intros d H m n Hin. unfold types_default_b in H. rewrite forallb_forall in H. specialize (H (m, n) Hin). cbn in H.
+  destruct (find_class default_world m n) as [[| | |]| | |]; try discriminate. reflexivity.
+Qed.
+
+(* every canonical dump loads under the default allow-list: no ForbiddenModule, no other error *)
+Theorem own_dumps_load : forall d, wfp d = true -> types_default_b d = true ->
+  exists o tr, vm_run default_world (enc_prog d) = (Done o, tr) /\ decode o = Some d.
+Proof.
+  intros d Hw Ht.
+  pose proof (pickle_roundtrip default_world d default_calls_ok (types_default_ok d Ht) Hw) as H.
+  unfold load in H. destruct (vm_run default_world (enc_prog d)) as [out tr]. cbn in H.
+  destruct out as [o|e]; [|discriminate]. exists o, tr. auto.
+Qed.
+
+(* whatever a Delta does is a function of its payload (and constructor flags):
+   the reloaded delta does the same on every base *)
+Theorem same_behaviour : forall (B : Type) (behaviour : pv -> B) w d,
+  calls_ok w -> types_ok w d -> wfp d = true ->
+  option_map behaviour (load w (enc_prog d)) = Some (behaviour d).
+Proof. intros B behaviour w d Hc Ht Hw. rewrite (pickle_roundtrip w d Hc Ht Hw). reflexivity. Qed.
+
+(* dumping the reloaded delta again gives the same dump *)
+Theorem redump_same : forall w d d', calls_ok w -> types_ok w d -> wfp d = true ->
+  load w (enc_prog d) = Some d' -> enc_prog d' = enc_prog d /\ load w (enc_prog d') = Some d.
+Proof.
+  intros w d d' Hc Ht Hw H. rewrite (pickle_roundtrip w d Hc Ht Hw) in H. inversion H; subst.
+  split; [reflexivity | apply pickle_roundtrip; assumption].
+Qed.
+
+(* non-vacuity: a payload with every kind of content meets the hypotheses *)
+From Coq Require Import String.
+Local Open Scope string_scope.
+Definition sample_payload : pv :=
+  PDict [(AStr (s2p "type_changes"),
+          PDict [(AStr (s2p "root['a']"),
+                  PDict [(AStr (s2p "old_type"), PNoneType); (AStr (s2p "new_type"), PType (s2p "builtins") (s2p "int"));
+                         (AStr (s2p "old_value"), PAtom ANone); (AStr (s2p "new_value"), PAtom (AInt 1%Z))])]);
+         (AStr (s2p "set_item_added"), PDict [(AStr (s2p "root['b']"), PSet [AInt 3%Z; AStr (s2p "x")])]);
+         (AStr (s2p "iterable_items_added_at_indexes"),
+          PDict [(AStr (s2p "root"), PDict [(AInt 0%Z, PTuple [PAtom (AHalf 3%Z); PAtom (ABytes (s2p "ab"))]);
+                                            (AInt 2%Z, PFrozen [ABool true])])]);
+         (AStr (s2p "_iterable_opcodes"),
+          PDict [(AStr (s2p "root['c']"),
+                  PList [POpcode (s2p "insert") 0 0 0 2 (PAtom ANone) (PList [PAtom (AInt 9%Z); PAtom (AInt 8%Z)]);
+                         POpcode (s2p "equal") 0 4 2 6 (PAtom ANone) (PAtom ANone)])]);
+         (AStr (s2p "x"), PSetOrdered [PAtom (AInt 1%Z)])].
+Example sample_payload_ok : wfp sample_payload = true /\ types_default_b sample_payload = true.
+Proof. vm_compute. split; reflexivity. Qed.
+Example sample_payload_roundtrip : load default_world (enc_prog sample_payload) = Some sample_payload.
+Proof. vm_compute. reflexivity. Qed.
+Local Close Scope string_scope.
